@@ -23,7 +23,7 @@ RULE = ("sub-workloads on falsy data: single (C01 shapes, ordered list compare),
         "expressions whose value is falsy), rule (C11 heads whose arguments evaluate to 0/''/None/False or are falsy "
         "constants), predform (T(From(d), field=<falsy constant>) vs explicit form), flatten (inner lists of scalars "
         "including 0, '', None, False and empty lists), concat (all lists empty; falsy elements; membership of falsy "
-        "values). Non-trivial: the case contains at least one falsy value in value position that belongs to a row of the "
+        "values), shared (one attribute expression object used by 2-3 queries as condition, comparison/membership operand and selected output, evaluated in random order). Non-trivial: the case contains at least one falsy value in value position that belongs to a row of the "
         "expected result or decides its absence. distinct by structural hash.")
 LEVEL_TEXT = ("Reference-model monitoring on a data class the other checks exclude: same oracles, datasets saturated with falsy "
               "values, so that a truthiness test creeping into any value path (operand, output, argument) drops or adds rows.")
@@ -42,13 +42,22 @@ def floors(tier):
     return {"distinct_nontrivial": 500, "cls:kind:single": 600, "cls:kind:multi": 600, "cls:kind:rule": 300,
             "cls:kind:predform": 300, "cls:kind:flatten": 300, "cls:kind:concat": 200, "cls:falsy_in_result": 800,
             "cls:falsy_selected_output": 100, "cls:falsy_constructor_argument": 150, "cls:falsy_field_constraint": 150,
-            "cls:falsy_flattened_element": 150, "cls:condition_position_falsy": 300}
+            "cls:falsy_flattened_element": 150, "cls:condition_position_falsy": 80,
+            "cls:kind:shared": 200, "cls:shared_expression_condition_and_value": 50}
 
 
 def cases(spec, ctx):
     for i in range(spec["n"]):
         rng = ctx.rng(spec["sub"], i)
-        kind = rng.choice(["single", "single", "multi", "multi", "rule", "predform", "flatten", "concat"])
+        kind = rng.choice(["single", "single", "multi", "multi", "rule", "predform", "flatten", "concat", "shared"])
+        if kind == "shared":
+            uses = [rng.choice(["condition", "operand_eq", "operand_in", "selected", "selected"]) for _ in range(rng.randint(2, 3))]
+            order = list(range(len(uses))) * 2
+            rng.shuffle(order)
+            yield {"kind": kind, "world": D.random_world(rng, np_=(3, 6), nq=(1, 2), falsy=True),
+                   "attr": rng.choice(["flag", "flag", "s", "t", "a"]), "uses": uses, "eval_order": order,
+                   "lit": rng.choice([0, "", None, False, 1, "x"])}
+            continue
         if kind == "single":
             k = rng.choice(["P", "P", "Q"])
             yield {"kind": kind, "world": D.random_world(rng, np_=(3, 6), nq=(3, 6), falsy=True), "kinds": [k],
@@ -85,6 +94,9 @@ def cases(spec, ctx):
         elif kind == "flatten":
             parents = [{"k": j, "items": [rng.choice([0, 1, "", "x", None, False, 2]) for _ in range(rng.randint(0, 4))]}
                        for j in range(rng.randint(1, 4))]
+            if rng.random() < 0.3:      # a non-iterable (possibly falsy) value counts as a single element
+                for p_ in parents:
+                    p_["items"] = rng.choice([0, 1, "", None, False, 2, "x"])
             yield {"kind": kind, "parents": parents, "sel": rng.choice(["elem", "parent_elem"]),
                    "cond": rng.choice(["none", "none", "eq0", "ne0", "in_falsy", "parent0"]), "caching": rng.random() < 0.7}
         else:
@@ -185,8 +197,11 @@ def _check_flatten(case, ctx):
     from entity_query_language import symbolic_mode, an, entity, set_of, let, in_
     from entity_query_language.entity import flatten
     from entity_query_language.cache_data import enable_caching, disable_caching
-    ps = [c16.Par(p["k"], list(p["items"])) for p in case["parents"]]
+    ps = [c16.Par(p["k"], list(p["items"]) if isinstance(p["items"], list) else p["items"]) for p in case["parents"]]
     c = case["cond"]
+
+    def inner(p):
+        return p.items if isinstance(p.items, list) else [p.items]
 
     def ok(p, x):
         if c == "eq0":
@@ -200,10 +215,12 @@ def _check_flatten(case, ctx):
         return True
     exp = []
     for pi, p in enumerate(ps):
-        for x in p.items:
+        for x in inner(p):
             if ok(p, x):
                 exp.append((repr(x),) if case["sel"] == "elem" else (f"Par{pi}", repr(x)))
-    if any(_is_falsy(x) for p in ps for x in p.items):
+    if any(not isinstance(p.items, list) and _is_falsy(p.items) for p in ps):
+        ctx.cls("cls:falsy_scalar_flattened")
+    if any(_is_falsy(x) for p in ps for x in inner(p)):
         ctx.cls("cls:falsy_flattened_element")
         if exp:
             ctx.cls("cls:falsy_in_result")
@@ -256,7 +273,55 @@ def _check_concat(case, ctx):
     return {"parents": case["parents"], "variant": v, "expected": exp, "observed": obs}
 
 
-SUB = {"single": _check_single, "multi": _check_multi, "rule": _check_rule, "predform": _check_predform,
+def _check_shared(case, ctx):
+    """ONE mapped expression object used by several queries in different positions (condition / operand / selected output)"""
+    from entity_query_language import symbolic_mode, an, entity, set_of, let, in_
+    world = D.build_world(case["world"])
+    ps = world["P"]
+    m = H.labels_of(world)
+    attr, lit = case["attr"], case["lit"]
+    with symbolic_mode():
+        x = let(D.P, ps)
+        val = getattr(x, attr)
+        queries = []
+        for u in case["uses"]:
+            if u == "condition":
+                queries.append(an(entity(x, val)))
+            elif u == "operand_eq":
+                queries.append(an(entity(x, val == lit)))
+            elif u == "operand_in":
+                queries.append(an(entity(x, in_(val, (0, None, "", lit)))))
+            else:
+                queries.append(an(set_of([x, val])))
+
+    def expect(u):
+        if u == "condition":
+            return [m[id(o)] for o in ps if getattr(o, attr)]
+        if u == "operand_eq":
+            return [m[id(o)] for o in ps if getattr(o, attr) == lit]
+        if u == "operand_in":
+            return [m[id(o)] for o in ps if getattr(o, attr) in (0, None, "", lit)]
+        return [(m[id(o)], repr(getattr(o, attr))) for o in ps]
+    if any(_is_falsy(getattr(o, attr)) for o in ps):
+        ctx.cls("cls:falsy_in_result")
+        if "selected" in case["uses"]:
+            ctx.cls("cls:falsy_selected_output")
+        if "condition" in case["uses"] and len(set(case["uses"])) > 1:
+            ctx.cls("cls:shared_expression_condition_and_value")
+            ctx.nontrivial()
+    log = []
+    for qi in case["eval_order"]:
+        u = case["uses"][qi]
+        rows = list(queries[qi].evaluate())
+        got = [(H.lab(m, r[x]), repr(r[val])) for r in rows] if u == "selected" else [H.lab(m, r) for r in rows]
+        log.append([qi, u, len(got)])
+        if got != expect(u):
+            ctx.fail("SHARED_EXPRESSION:" + u, {"attribute": attr, "uses": case["uses"], "evaluated": log, "expected": expect(u), "observed": got})
+            break
+    return {"attribute": attr, "uses": case["uses"], "evaluation_order": case["eval_order"], "log": log}
+
+
+SUB = {"shared": _check_shared, "single": _check_single, "multi": _check_multi, "rule": _check_rule, "predform": _check_predform,
        "flatten": _check_flatten, "concat": _check_concat}
 
 
